@@ -164,7 +164,18 @@ def handle (args : List String) : String :=
       if mode == "pipe" then
         if err.isNone then s!"{common};rc={r.recvd}" else common
       else
-        let full := s!"w={rle (s.wire.map (·.size))};wh={hex64 (fnv1a stream)};{common}"
+        -- the physical-ring model: which buffer each Write was given, and a
+        -- run-time cross-check of `C11_conn_ring_refines`
+        -- (only for streams up to 1 MiB, to keep the driver fast)
+        let ring :=
+          if stream.size > 1048576 then "-" else
+          let rg := (Ring.init.run drvSched ops).close drvSched
+          let ringOk := rg.wire.map (·.size) == s.wire.map (·.size) &&
+            fnv1a (rg.wire.foldl (· ++ ·) ByteArray.empty) == fnv1a stream &&
+            rg.toW.isEmpty && rg.sent == s.sent && rg.flushed == s.flushed
+          if ringOk then s!"{rg.wids.length},{hex64 (fnv1a (rg.wids.map UInt8.ofNat).toByteArray)}"
+          else "ring-abs-mismatch"
+        let full := s!"w={rle (s.wire.map (·.size))};wh={hex64 (fnv1a stream)};rg={ring};{common}"
         if err.isNone then
           s!"{full};rd={r.nread},{hex64 r.rlog};rc={r.recvd};left={r.window.size},{r.pending.size},{hex64 (fnv1a r.pending (fnv1a r.window))}"
         else full
